@@ -123,9 +123,11 @@ class MoveImportsToTypeCheckingBlockVisitor(ContextAwareTransformer):
 
     @staticmethod
     def _remove_typing_module(import_item_list: List[ImportItem]) -> List[ImportItem]:
+        # mypy_extensions provides the TypedDict base class of generated class
+        # definitions, which is evaluated when the module is imported
         ret: List[ImportItem] = []
         for import_item in import_item_list:
-            if import_item.module_name != "typing":
+            if import_item.module_name not in ("typing", "mypy_extensions"):
                 ret.append(import_item)
         return ret
 
@@ -144,7 +146,7 @@ class MoveImportsToTypeCheckingBlockVisitor(ContextAwareTransformer):
 
             self.import_items_to_be_moved = import_items_to_be_moved
 
-            # Remove typing library since we do not want it
+            # Remove typing libraries since we do not want them
             # to be imported inside the if TYPE_CHECKING block
             self.import_items_to_be_moved = self._remove_typing_module(
                 self.import_items_to_be_moved
